@@ -19,7 +19,7 @@ EXTENDS Integers, Sequences, FiniteSets, TLC, SequencesExt, Json
 
 CONSTANTS Tier, Emit, Broken   \* Broken = "sameAsPreviousDropped": vacuity guard, the model must then violate ThreadzCountsAllThreads
 
-Addrs == {16, 17, 32, 4096}
+Addrs == {16, 17, 32, 4096, 4097}      \* 4097 - 1 = 4096: the first address of the second mapping, which is the limit of the first
 StacksOf == { <<a>> : a \in Addrs } \cup { <<a, b>> : a, b \in Addrs } \cup { <<17, 16, 32>>, <<32, 32, 16>>, <<16, 4096, 32>> }
 Rec(c, s, c2, s2, st) == [c |-> c, s |-> s, c2 |-> c2, s2 |-> s2, stack |-> st]
 
@@ -49,7 +49,8 @@ BaseDocs(d) ==
   { [fmt |-> "heap", variant |-> v, recs |-> rs, rate |-> r, period |-> 0, hz |-> 0] :
       v \in {"heapprofile", "heap_v2", "heapz_v2", "heap"}, r \in {1, 4, 524288},
       rs \in { <<Rec(c, s, c, s, st)>> : c \in {1, 3}, s \in {10, 4096}, st \in {<<16>>, <<17, 32>>} }
-             \cup { <<Rec(0, 0, 2, 64, <<16, 32>>)>>, <<Rec(1, 16, 3, 48, <<32>>)>>, <<Rec(2, 100, 2, 100, <<16>>), Rec(7, 7000, 7, 7000, <<4096, 17>>)>> } }
+             \cup { <<Rec(0, 0, 2, 64, <<16, 32>>)>>, <<Rec(1, 16, 3, 48, <<32>>)>>, <<Rec(3, 300, 3, 900, <<32>>)>>, <<Rec(2, 64, 5, 64, <<16>>)>>,   \* in-use and alloc pairs agreeing in one number only
+              <<Rec(2, 100, 2, 100, <<16>>), Rec(7, 7000, 7, 7000, <<4096, 17>>)>> } }
   \cup
   \* growth and fragmentation profiles: the heap grammar with period 1, no unsampling, in-use pair only
   { [fmt |-> "heap", variant |-> v, recs |-> rs, rate |-> 0, period |-> 0, hz |-> 0] :
